@@ -151,6 +151,15 @@ def neutralise_overheads():
 
 def _worker_init():
     warnings.simplefilter("ignore")
+    # every worker process gets a temp directory of its own: library code that derives temp-file names from a seeded
+    # generator (Ptychography.clone does) would otherwise collide between workers that run identically seeded cases
+    import tempfile
+
+    base = os.environ.get("QUANTEM_VERIF_SCRATCH") or tempfile.gettempdir()
+    d = os.path.join(base, f"worker-{os.getpid()}")
+    os.makedirs(d, exist_ok=True)
+    os.environ["TMPDIR"] = d
+    tempfile.tempdir = d
     try:
         import torch
 
